@@ -123,6 +123,7 @@ def validate_impl(scn, fixes, lines, workdir, name='TR', timeout=600):
     accepted = extract_print(out, 'ACCEPTED')
     reached = extract_print(out, 'REACHED')
     viols = extract_print(out, 'VIOLS')
+    labels = extract_print(out, 'LABELS') or []
     if accepted is None or reached is None:
         return {'error': out[-3000:], 'rc': rc, 'wall': wall}
     accepted, reached = set(accepted), set(reached)
@@ -146,7 +147,7 @@ def validate_impl(scn, fixes, lines, workdir, name='TR', timeout=600):
                 for v in vs:
                     if v not in info['viols']:
                         info['viols'].append(v)
-    return {'runs': result, 'wall': wall, 'records': recs, 'out': out}
+    return {'runs': result, 'wall': wall, 'records': recs, 'out': out, 'labels': sorted(labels)}
 
 
 def obs_projection(run_recs):
